@@ -103,8 +103,12 @@ NoRet == [kind |-> "none", i |-> 0]
 Gone  == [kind |-> "gone", i |-> 0]     \* the calling goroutine ended inside Transact
 Nil   == [kind |-> "nil", i |-> 0]
 
-NSteps == Len(cfg.steps)
-Out(i) == cfg.steps[i].out
+(* cfg.pad: that many leading steps are not listed in cfg.steps: they execute nothing, end nothing *)
+(* and return nil (lists of tens of thousands of steps)                                          *)
+Uneventful == [out |-> "ok", ex |-> 0, fin |-> "none"]
+NSteps == cfg.pad + Len(cfg.steps)
+StepAt(i) == IF i <= cfg.pad THEN Uneventful ELSE cfg.steps[i - cfg.pad]
+Out(i) == StepAt(i).out
 
 (* a real error value came back (not nil, and Transact did not let a panic escape) *)
 IsError(r) == r.kind \notin {"nil", "raised", "none", "gone"}
@@ -120,15 +124,20 @@ PanicOf(i) == [kind |-> "panic", i |-> i]
 (* the transaction was ended behind Transact's back *)
 Dead == fin # <<>> /\ fin[1].by # "transact"
 DeadBefore(i) == Dead /\ fin[1].at < i
-Need(i) == IF DeadBefore(i) THEN 0 ELSE cfg.steps[i].ex   \* statements that reach the database
+Need(i) == IF DeadBefore(i) THEN 0 ELSE StepAt(i).ex   \* statements that reach the database
 
 Committing  == \/ pc = "run" /\ cur = NSteps
                \/ pc = "failed" /\ ~Noticed
 RollingBack == pc = "failed" /\ Noticed
 
+(* steps lo..hi execute nothing, end nothing, return nil (the padding does so by definition) *)
+AllUneventful(lo, hi) ==
+  \A i \in (IF lo > cfg.pad THEN lo ELSE cfg.pad + 1)..hi :
+     Out(i) = "ok" /\ Need(i) = 0 /\ StepAt(i).fin = "none"
+
 (* inside step cur, statements done: the step / the cancelled context ends the transaction *)
-StepFinishes(op) == pc = "in" /\ ~Dead /\ nex = Need(cur) /\ cfg.steps[cur].fin = op
-CtxRollsBack     == pc = "in" /\ ~Dead /\ nex = Need(cur) /\ cfg.steps[cur].fin = "none"
+StepFinishes(op) == pc = "in" /\ ~Dead /\ nex = Need(cur) /\ StepAt(cur).fin = op
+CtxRollsBack     == pc = "in" /\ ~Dead /\ nex = Need(cur) /\ StepAt(cur).fin = "none"
                     /\ cfg.cancel = cur
 Fin(op, ok, by, at) == [op |-> op, ok |-> ok, by |-> by, at |-> at]
 
@@ -165,8 +174,8 @@ Do(a) ==
          /\ UNCHANGED <<cfg, fail, begun, execs, fin, ret>>
     [] a.ev = "steps" ->
          /\ pc = "run" /\ a.from = cur + 1 /\ a.from <= a.to /\ a.to <= NSteps
-         /\ \A i \in a.from..a.to : /\ Out(i) = "ok" /\ Need(i) = 0
-                                    /\ cfg.steps[i].fin = "none" /\ cfg.cancel # i
+         /\ (cfg.cancel < a.from \/ cfg.cancel > a.to)
+         /\ AllUneventful(a.from, a.to) = TRUE    \* (= TRUE: evaluated as a value, not as an action)
          /\ cur' = a.to /\ nex' = 0
          /\ ran' = ran \o [k \in 1..(a.to - a.from + 1) |-> a.from + k - 1]
          /\ UNCHANGED <<cfg, pc, fail, begun, execs, fin, ret>>
@@ -177,7 +186,7 @@ Do(a) ==
          /\ UNCHANGED <<cfg, pc, cur, fail, begun, ran, fin, ret>>
     [] a.ev = "end" ->
          /\ pc = "in" /\ a.i = cur /\ a.out = Out(cur) /\ nex = Need(cur)
-         /\ (cfg.steps[cur].fin # "none" \/ cfg.cancel = cur) => Dead
+         /\ (StepAt(cur).fin # "none" \/ cfg.cancel = cur) => Dead
          /\ IF a.out = "ok" THEN pc' = "run" /\ fail' = fail
                             ELSE pc' = "failed" /\ fail' = cur
          /\ UNCHANGED <<cfg, cur, nex, begun, ran, execs, fin, ret>>
@@ -244,7 +253,7 @@ StepRecs == {s \in [out : Outs, ex : 0..MaxEx, fin : Fins] :
                s.out = "nilfn" => s.ex = 0 /\ s.fin = "none"}
 StepLists == UNION {[1..m -> StepRecs] : m \in 0..MaxSteps}
 MkCfg(n, s, b, c, r, k, d) ==
-  [n |-> n, steps |-> s, begin |-> b, commit |-> c, rollback |-> r, cancel |-> k, db |-> d]
+  [n |-> n, steps |-> s, begin |-> b, commit |-> c, rollback |-> r, cancel |-> k, db |-> d, pad |-> 0]
 CancelPts(m) == IF CancelOn THEN -1..m ELSE {-1}
 
 RetVals ==      [kind : {"nil", "begin", "commit", "rollback", "other", "raised"}, i : {0}]
